@@ -1088,3 +1088,25 @@ package state
 //@ ensures[other-entries-untouched] forall t string :: strLower(t) != strLower(idx.Key) ==> T_index(t) == old(T_index(t))
 //@ modifies T.index
 
+//@ file peering.go
+
+// peerings and peering trust bundles are restored AFTER the index table (persist order), so their restorers must merge
+// the table index by maximum: a plain overwrite leaves the index at the ModifyIndex of whichever record is restored
+// last, below the value the snapshot carried.
+//@ func Restore.Peering
+//@ props C02
+//@ results err
+//@ requires r != nil && p != nil
+//@ ensures[stored-verbatim] err == nil ==> T_peering(p.ID) == p && p.ModifyIndex == old(p.ModifyIndex) && p.CreateIndex == old(p.CreateIndex)
+//@ ensures[index-max-merged] err == nil ==> idxVal("peering") == ite(old(idxVal("peering")) >= p.ModifyIndex, old(idxVal("peering")), p.ModifyIndex)
+//@ ensures[other-rows-untouched] forall k string :: strLower(k) != strLower(p.ID) ==> T_peering(k) == old(T_peering(k))
+//@ modifies T.peering, T.index
+
+//@ func Restore.PeeringTrustBundle
+//@ props C02
+//@ results err
+//@ requires r != nil && ptb != nil
+//@ ensures[stored-verbatim] err == nil ==> T_peering_trust_bundles(ptb.PeerName) == ptb && ptb.ModifyIndex == old(ptb.ModifyIndex)
+//@ ensures[index-max-merged] err == nil ==> idxVal("peering-trust-bundles") == ite(old(idxVal("peering-trust-bundles")) >= ptb.ModifyIndex, old(idxVal("peering-trust-bundles")), ptb.ModifyIndex)
+//@ modifies T.peering-trust-bundles, T.index
+
